@@ -107,6 +107,15 @@ C01State *g1 = nullptr;
 const Case *g_case = nullptr;
 
 void c01_hook() {
+#if defined(VERIF_CFG_ATOMIC_c11) || defined(VERIF_CFG_ATOMIC_sync)
+  // anchored state of the property: PSpinLock.spin is 0 when free and 1 when held (lock-free models only; the sim model wraps a mutex)
+  for (size_t i = 0; i < g1->holders.size(); i++)
+    if (g1->kinds[i] == 's' && g1->spins[i]) {
+      int word = *(volatile int *)g1->spins[i];
+      if (word != 0 && word != 1) { vs::S().on_verdict = nullptr; child_fail("spin-word", "spinlock word is " + std::to_string(word) + " (it must be 0 = free or 1 = held at all times; a drifting word lets a later trylock succeed on a held lock after wrap-around)"); }
+      if (g1->in_call[i] == 0 && word != g1->holders[i]) { vs::S().on_verdict = nullptr; child_fail("spin-word", "spinlock word is " + std::to_string(word) + " while " + std::to_string(g1->holders[i]) + " thread(s) hold the lock and no call is in progress"); }
+    }
+#endif
   for (size_t i = 0; i < g1->holders.size(); i++)
     if (g1->holders[i] > 1 || g1->holders[i] < 0) { vs::S().on_verdict = nullptr; child_fail("exclusion", "lock " + std::to_string(i) + " is held by " + std::to_string(g1->holders[i]) + " threads at the same time"); }
 }
@@ -266,7 +275,7 @@ void *c02_thread(void *arg) {
 }
 
 // ---- C03 -------------------------------------------------------------------------------------------
-struct C03Prog { string shape; int cap = 1, prod = 1, items = 2, cons = 1, waiters = 2; char ne = 's', nf = 's', gate = 'b'; };
+struct C03Prog { string shape; int cap = 1, prod = 1, items = 2, cons = 1, waiters = 2; char ne = 's', nf = 's', gate = 'b'; int out = 0; /* 1: wake-ups are issued after the mutex was released */ };
 bool parse_c03(const string &p, C03Prog &g) {
   auto w = vl::split_ws(p);
   if (w.empty()) return false;
@@ -276,7 +285,7 @@ bool parse_c03(const string &p, C03Prog &g) {
     string k = w[i].substr(0, e), v = w[i].substr(e + 1);
     if (k == "cap") g.cap = atoi(v.c_str()); else if (k == "prod") g.prod = atoi(v.c_str()); else if (k == "items") g.items = atoi(v.c_str());
     else if (k == "cons") g.cons = atoi(v.c_str()); else if (k == "waiters") g.waiters = atoi(v.c_str());
-    else if (k == "ne") g.ne = v[0]; else if (k == "nf") g.nf = v[0]; else if (k == "gate") g.gate = v[0];
+    else if (k == "ne") g.ne = v[0]; else if (k == "nf") g.nf = v[0]; else if (k == "gate") g.gate = v[0]; else if (k == "out") g.out = atoi(v.c_str());
   }
   return true;
 }
@@ -309,8 +318,7 @@ void *c03_producer(void *arg) {
     while ((int)g.queue.size() >= g.p.cap) c03_wait(g.not_full);
     g.queue.push_back((int)id * 1000 + i);
     g.produced_total++;
-    c03_wake(g.not_empty, g.p.ne);
-    c03_unlock();
+    if (g.p.out) { c03_unlock(); c03_wake(g.not_empty, g.p.ne); } else { c03_wake(g.not_empty, g.p.ne); c03_unlock(); }
   }
   return NULL;
 }
@@ -323,8 +331,7 @@ void *c03_consumer(void *arg) {
     while (g.queue.empty()) c03_wait(g.not_empty);
     g.consumed.push_back(g.queue.front());
     g.queue.erase(g.queue.begin());
-    c03_wake(g.not_full, g.p.nf);
-    c03_unlock();
+    if (g.p.out) { c03_unlock(); c03_wake(g.not_full, g.p.nf); } else { c03_wake(g.not_full, g.p.nf); c03_unlock(); }
   }
   return NULL;
 }
@@ -342,9 +349,10 @@ void *c03_gate_opener(void *) {
   vs::point(false);
   c03_lock();
   g.gate_open = true;
+  if (g.p.out) c03_unlock();
   if (g.p.gate == 'b') c03_wake(g.gate_cv, 'b');
   else for (int i = 0; i < g.p.waiters; i++) c03_wake(g.gate_cv, 's');
-  c03_unlock();
+  if (!g.p.out) c03_unlock();
   return NULL;
 }
 
@@ -779,12 +787,12 @@ rc::Gen<Case> genC02() {
 }
 rc::Gen<Case> genC03() {
   using namespace rc;
-  auto bb = gen::map(gen::tuple(rng(1, 4), rng(1, 4), rng(1, 4), rng(1, 4), gen::element('s', 'b'), gen::element('s', 'b')), [](const std::tuple<int, int, int, int, char, char> &t) {
+  auto bb = gen::map(gen::tuple(rng(1, 4), rng(1, 4), rng(1, 4), rng(1, 4), gen::element('s', 'b'), gen::element('s', 'b'), rng(0, 2)), [](const std::tuple<int, int, int, int, char, char, int> &t) {
     std::ostringstream os; int cons = std::get<3>(t);
     // signal (rather than broadcast) is only correct here when a single kind of waiter sits on each condition variable - true for this program
-    os << "bb cap=" << std::get<0>(t) << " prod=" << std::get<1>(t) << " items=" << std::get<2>(t) << " cons=" << cons << " ne=" << std::get<4>(t) << " nf=" << std::get<5>(t);
+    os << "bb cap=" << std::get<0>(t) << " prod=" << std::get<1>(t) << " items=" << std::get<2>(t) << " cons=" << cons << " ne=" << std::get<4>(t) << " nf=" << std::get<5>(t) << " out=" << std::get<6>(t);
     return os.str(); });
-  auto gate = gen::map(gen::tuple(rng(2, 5), gen::element('b', 's')), [](const std::tuple<int, char> &t) { std::ostringstream os; os << "gate waiters=" << std::get<0>(t) << " gate=" << std::get<1>(t); return os.str(); });
+  auto gate = gen::map(gen::tuple(rng(2, 5), gen::element('b', 's'), rng(0, 2)), [](const std::tuple<int, char, int> &t) { std::ostringstream os; os << "gate waiters=" << std::get<0>(t) << " gate=" << std::get<1>(t) << " out=" << std::get<2>(t); return os.str(); });
   return gen::map(gen::tuple(gen::oneOf(bb, gate), genScheduleLong(), rng(0, 3), rng(0, 4)), [](const std::tuple<string, vector<uint8_t>, int, int> &x) {
     Case c; c.prop = "C03"; c.prog = std::get<0>(x); c.sched = std::get<1>(x); c.spurious = std::get<2>(x) != 0; c.budget = std::get<3>(x); return c; });
 }
@@ -880,7 +888,7 @@ vector<Case> shapes_for(const string &prop) {
     v.push_back(shape("dsched C02\nobj w\nT X0.1.- R0.1.-\nT x0.1.-\nT r0.1.-\n"));
     v.push_back(shape("dsched C02\nopt spurious=1 budget=2\nobj w\nT x0.1.-\nT r0.1.-\nT x0.1.-\n"));
   } else if (prop == "C03") {
-    for (const char *p : {"bb cap=1 prod=1 items=2 cons=1 ne=s nf=s", "bb cap=1 prod=2 items=1 cons=2 ne=s nf=s", "bb cap=2 prod=1 items=3 cons=2 ne=b nf=s", "gate waiters=2 gate=b", "gate waiters=3 gate=b", "gate waiters=2 gate=s"}) {
+    for (const char *p : {"bb cap=1 prod=1 items=2 cons=1 ne=s nf=s", "bb cap=1 prod=2 items=1 cons=2 ne=s nf=s", "bb cap=2 prod=1 items=3 cons=2 ne=b nf=s", "bb cap=1 prod=2 items=1 cons=2 ne=b nf=b out=1", "bb cap=2 prod=2 items=2 cons=2 ne=s nf=s out=1", "gate waiters=2 gate=b", "gate waiters=3 gate=b out=1", "gate waiters=2 gate=s"}) {
       Case c; c.prop = "C03"; c.prog = p; v.push_back(c);
       Case d = c; d.spurious = true; d.budget = 2; v.push_back(d);
     }
